@@ -13,7 +13,7 @@ RULE = ("enum: every composition (n+, n-, n0) with N<=25 (quick) / N<=44 (thorou
         "long-no-neutrals: majority block 128..160/170 with every minority count (quick: one in sixteen); every case has one segregated (block) presentation; maximisers-after-kappa: every composition with 5<=N<=10/13 at its brute-forced delta-maximiser, queried after get_kappa() on the same object; long-neighbours: 2-4 compositions of one length 101..160 differing by one residue, analysed one after another in the same process; random cases <=40 residues may follow a warm-up history. Oracle: (i) all presentations return the same value; (ii) get_deltaMax(True) returns (v, s) with v equal to the plain "
         "call, s a rearrangement of the input whose exact reference delta equals v; (iii) v equals the maximum of exact "
         "rational delta over the documented candidate family (either reading where the prose is ambiguous). Non-trivial: "
-        "a charged residue present and reference delta-max > 0; distinct by composition+presentation.")
+        "a charged residue present and reference delta-max > 0; distinct by composition+presentation. Every object that has reported get_deltaMax() is then asked for get_deltaMax(True) and for the value again (same value to 1e-9, permutant attains it). In the generated parts one clean word in eight is handed to the constructor as SeqObj=Sequence(lower/mixed-case text) instead of as a string (same object expected).")
 ASSUMPTIONS = ["vlc/ref.py:family transcribes the documented four-regime search from the property statement",
                "when the prose 'minority slid through majority' is ambiguous (equal block lengths) either reading is accepted",
                "float tolerance 1e-9 relative"]
@@ -54,6 +54,15 @@ def check_comp(ctx, case):
         dperm = ref.delta(ref.pattern(perm))
         ctx.check(ref.close(float(dperm), v2), "permutant-attains",
                   "permutant %r has delta %r, reported delta-max %r" % (perm, float(dperm), v2), case)
+        # the object that has already reported the value is now asked for the permutant as well (and for the value again)
+        res3 = o.get_deltaMax(returnSeqDeltaMax=True)
+        ctx.check(isinstance(res3, tuple) and len(res3) == 2 and isinstance(res3[1], str) and sorted(res3[1]) == sorted(s), "permutant-after-value:shape",
+                  "get_deltaMax(True) after get_deltaMax() returned %r" % (res3,), case)
+        ctx.check(ref.close(res3[0], v) and ref.close(float(ref.delta(ref.pattern(res3[1]))), v), "permutant-after-value",
+                  "get_deltaMax(True) on an object that had already answered get_deltaMax()=%r returned %r (delta of that permutant: %r)" % (
+                      v, res3, float(ref.delta(ref.pattern(res3[1])))), case)
+        v4 = o.get_deltaMax()
+        ctx.check(ref.close(v4, v), "value-after-permutant", "get_deltaMax() changed from %r to %r after the permutant was requested" % (v, v4), case)
     for v in vals[1:]:
         ctx.check(ref.close(v, vals[0]), "composition-only",
                   "delta-max differs between presentations of composition %s: %r" % ((P, M, Z), vals), case)
